@@ -13,8 +13,9 @@ NParts == atoi(IOEnv.VERIF_NPARTS)
 Mine(i) == i % NParts = Part
 
 Pairs == SetToSeq(RandomSubset(NParam, (1..NKinds) \X (1..NKinds)))
+GenModels == FixedModels \o DoubtfulModels
 EntriesOf(pairs) ==
-    T([i \in 1..Len(FixedModels) |-> [m |-> FixedModels[i], pa |-> 0, pb |-> 0, fixed |-> TRUE]])
+    T([i \in 1..Len(GenModels) |-> [m |-> GenModels[i], pa |-> 0, pb |-> 0, fixed |-> TRUE]])
     \o T([i \in 1..Len(pairs) |-> [m |-> ParamModel(pairs[i][1], pairs[i][2]), pa |-> pairs[i][1], pb |-> pairs[i][2], fixed |-> FALSE]])
 
 Raw(m) == [id |-> m.id, root |-> m.root, enums |-> m.enums, classes |-> m.classes]
